@@ -151,16 +151,16 @@ def addFlags {n : Nat} (a b : BitVec n) : Flags :=
   { cf := (a + b).ult a, zf := (a + b) == 0, sf := (a + b).msb, of := (a.msb == b.msb) && ((a + b).msb != a.msb) }
 
 /-- result (written back unless `cmp`/`test`) and flags at native width -/
-def aluN {n : Nat} (op : Alu) (a b : BitVec n) : BitVec n × Option Flags :=
+def aluN {n : Nat} (op : Alu) (a c : BitVec n) : BitVec n × Option Flags :=
   match op with
-  | .add => (a + b, some (addFlags a b))
-  | .sub => (a - b, some (subFlags a b))
-  | .cmp => (a, some (subFlags a b))
-  | .and => (a &&& b, some (logicFlags (a &&& b)))
-  | .test => (a, some (logicFlags (a &&& b)))
-  | .or => (a ||| b, some (logicFlags (a ||| b)))
-  | .xor => (a ^^^ b, some (logicFlags (a ^^^ b)))
-  | .imul => (a * b, none)           -- two-operand form: truncated product; SF/ZF undefined
+  | .add => (a + c, some (addFlags a c))
+  | .sub => (a - c, some (subFlags a c))
+  | .cmp => (a, some (subFlags a c))
+  | .and => (a &&& c, some (logicFlags (a &&& c)))
+  | .test => (a, some (logicFlags (a &&& c)))
+  | .or => (a ||| c, some (logicFlags (a ||| c)))
+  | .xor => (a ^^^ c, some (logicFlags (a ^^^ c)))
+  | .imul => (a * c, none)           -- two-operand form: truncated product; SF/ZF undefined
 
 def aluW (op : Alu) (w : W) (a b : BitVec 64) : BitVec 64 × Option Flags :=
   match w with
@@ -183,7 +183,7 @@ def shW (op : Sh) (w : W) (a cl : BitVec 64) : Option (BitVec 64) :=
   | .d => some ((shN op (a.setWidth 32) ((cl.setWidth 8).toNat % 32)).setWidth 64)
   | .q => some (shN op a ((cl.setWidth 8).toNat % 64))
 
-def cond (f : Flags) : CC → Bool
+def ccHolds (f : Flags) : CC → Bool
   | .e => f.zf
   | .ne => !f.zf
   | .l => f.sf != f.of
@@ -271,12 +271,12 @@ def step (i : Ins) (s : State) : Option State :=
       | _ => none
   | .set c d =>
       match s.flags, width d with
-      | some f, some .b => write s d (if cond f c then 1#64 else 0#64)
+      | some f, some .b => write s d (if ccHolds f c then 1#64 else 0#64)
       | _, _ => none
   | .cmovne d src =>
       match s.flags with
       | none => none
-      | some f => if sameWidth d src then write s d (if cond f .ne then read s src else read s d) else none
+      | some f => if sameWidth d src then write s d (if ccHolds f .ne then read s src else read s d) else none
   | .lzcnt d src => if sameWidth d src then
       (width d).bind fun w => (cntW (fun x => x.clz) w (read s src)).bind fun v => (write s d v).map fun s1 => { s1 with flags := none }
       else none
